@@ -64,6 +64,11 @@ CLAIMED = {
    text="Time is relative and the streak saturates, so the exhaustive configs are horizon-free; the replay checks on the real code that a hit comes only from the exact five-dimensional key or a failed ancestor zone of the same class, that back-off stays in the configured envelope and at most doubles, that request-local causes (budget, attempt limit, deadline, cancel, shed, best-effort, probe limit) never create shared state, that one probe leads after expiry, success resets, and the kill switch stops both recording and serving.",
    design_ref="2.4",
    note="One defect found and repaired (fix: ed8d7bf shed load cached). Causes living on the caller's context are injected on message-born requests only (a wire-born request is detached); the dns64/failover 'cached failure is terminal' wrappers are bound in C20; 64-bit hash collisions belong to C03."),
+ "C09": dict(
+   technique="TLA+ spec RFC5011.tla (one AutoTA run as 15 program-counter steps keyed by tag exactly as the code, adversary/operator publications incl. tag collisions and forged sets, Crash between persistence steps, Restart, read/write faults, ghost oracle) model-checked with TLC (TrustOnlyByRFC, RevokedNeverAgain, UnauthenticatedChangesNothing, RevokedOnlyRevokes, FailClosed, MissingKeepsTrust, ReappearRestores; 9 reachability witnesses; hypothesis configs whose counter-examples are concretised); simulated behaviours and TLC counter-examples replayed on a real Resolver with really signed Ed25519 DNSKEY sets, gob files aged by rewriting FirstSeen, write/read faults and inotify-reconstructed crash directories; one NDJSON event per run validated by Trace_RFC5011",
+   text="Exhaustive over 2-3 keys (one colliding tag pair), 3-4 refreshes, day steps around 30 d / 90 d, one crash/restart, two write faults, corrupt tombstones (0.4-4.7M states); 160 (quick) to 2,700 (thorough) behaviours executed on the real AutoTA with all clauses evaluated at every quiescent point and after every reconstructed crash prefix; tombstones-before-state and temp+rename atomicity observed with inotify.",
+   design_ref="2.3",
+   note="Four recorded findings, all found first as TLC counter-examples and reproduced on the code (tag-keyed hold-down presence under a tag collision; unreadable tombstone store not failing closed; revocation forgotten after both writes failed; sole StateRevoked marker lost to state-file corruption). Two further RFC 5011 gaps (revoked-tag carry +129; revocation masked by an in-RRset tag collision) are reported as observations: sdns never accepts those revocations, so the statement is not engaged. The 1- and 89-day boundaries are sampled, not exhaustive; torn writes below rename(2) are out of scope."),
 }
 
 NOT_YET = {}
